@@ -24,12 +24,13 @@ import vlib
 
 sys.path.insert(0, str(Path(__file__).resolve().parent))
 import _c18_lib as L  # noqa: E402
+import _c18_seedpatch as SP  # noqa: E402
 import _c18_stub as S  # noqa: E402
 
 SRC = ["src/pynguin/testcase/export.py", "src/pynguin/assertion/assertion_to_ast.py", "src/pynguin/generator.py",
        "src/pynguin/assertion/assertiontraceobserver.py", "src/pynguin/testcase/testcase.py"]
 SUT_DIR = vlib.VERIF / "corpus" / "C18" / "sut"
-SUT_MODULES = ["numeric", "strings", "containers", "state", "enums", "floats", "rnd", "errors", "shapes.area", "foreign", "exits", "kwclash"]
+SUT_MODULES = ["numeric", "strings", "containers", "state", "enums", "floats", "rnd", "errors", "shapes.area", "foreign", "exits", "kwclash", "declared", "rndkey"]
 MODES = ["MUTATION_ANALYSIS", "SIMPLE", "NONE", "CHECKED_MINIMIZING"]
 GEN = str(Path(__file__).resolve().parent / "_c18_gen.py")
 
@@ -109,6 +110,23 @@ def shrink_spec(spec, sig, scratch, budget=30):
                 cur = cand
             i -= 1
     return cur
+
+
+def seed_patch_differences(repo, seeds):
+    """[(label, generation-side outcome, exported-patch outcome)] over a catalogue of seed objects."""
+    script = str(Path(__file__).resolve().parent / "_c18_seedpatch.py")
+    env = dict(os.environ, PYTHONHASHSEED="0")
+    bad = []
+    for sd in seeds:
+        outs = {}
+        for mode in ("gen", "export"):
+            r = subprocess.run([sys.executable, script, mode, str(repo), str(sd)], capture_output=True, text=True, timeout=300, env=env)
+            line = [ln for ln in r.stdout.splitlines() if ln.startswith("RESULT ")]
+            outs[mode] = json.loads(line[-1][7:]) if line else {"crash": r.stderr[-300:]}
+        for k in sorted(set(outs["gen"]) | set(outs["export"])):
+            if outs["gen"].get(k) != outs["export"].get(k):
+                bad.append((k, outs["gen"].get(k), outs["export"].get(k)))
+    return bad
 
 
 # ------------------------------------------------------------------------------------------------
@@ -279,6 +297,14 @@ def run(ctx: vlib.Ctx):
         ctx.leg("K2", ok=True, suites=len(cases))
 
     ctx.log("model evaluated on the stub suites")
+    # ---- K: the two copies of the random.Random.seed patch (generation time vs. exported text) -------
+    sp_bad = seed_patch_differences(ctx.repo, [rng.randrange(1, 10**6), 0])
+    for label, g, e in sp_bad[:1]:
+        ctx.fail(f"seed-patch-diverges:{label.split(':')[0]}",
+                 f"random seeding with a {label} behaves differently while Pynguin generates ({g}) and in the exported test "
+                 f"file ({e}): a statement that passes during generation fails under pytest or vice versa",
+                 {"kind": "seedpatch", "differences": sp_bad[:20]})
+    ctx.leg("K-seedpatch", ok=not sp_bad, compared=2 * len(SP.OBJECTS) * 2)
     # ---- S(c): real generations ----------------------------------------------------------------
     jobs = []
     for c in corpus:
@@ -351,6 +377,9 @@ def replay(ctx, path):
     vlib.setup_impl_path()
     d = json.loads(open(path).read())["replay"]
     scratch = ctx.mkscratch()
+    if d["kind"] == "seedpatch":
+        print("differences now:", seed_patch_differences(ctx.repo, [0]))
+        return 0
     if d["kind"] == "stub":
         rec = eval_stub(d["spec"], str(scratch / "r"))
         fn = "test_replay.py"
